@@ -23,7 +23,8 @@ impl FaceIntegral for VoronoiFaceIntegral {
         Self {
             area: 0.,
             centroid: DVec3::ZERO,
-            normal: cell.clipping_planes[clipping_plane_idx].plane.n,
+            // The clipping planes of a cell point inwards; the face normal points away from the left generator.
+            normal: -cell.clipping_planes[clipping_plane_idx].plane.n,
         }
     }
 
